@@ -7,6 +7,8 @@
 #include <xalanc/Include/PlatformDefinitions.hpp>
 #include <xalanc/XalanDOM/XalanDOMString.hpp>
 #include <xalanc/PlatformSupport/XalanBitmap.hpp>
+#include <xalanc/PlatformSupport/XalanDOMStringPool.hpp>
+#include <map>
 #include <xalanc/XalanTransformer/XalanTransformer.hpp>
 #include <xercesc/util/PlatformUtils.hpp>
 #include <xercesc/framework/MemoryManager.hpp>
@@ -94,6 +96,33 @@ static std::string show(BmpPair& p, bool& bad)
     return o.str();
 }
 
+struct PoolPair
+{
+    std::unique_ptr<XalanDOMStringPool> x;
+    std::map<const XalanDOMString*, size_t> ids;   // pooled object -> order of first appearance since the last clear
+    std::vector<std::u16string> s;                  // reference: the distinct non-empty strings, in order
+    PoolPair(size_t bc = XalanDOMStringPool::eDefaultBucketCount) :
+        x(new XalanDOMStringPool(g_mm, XalanDOMStringPool::eDefaultBlockSize, bc)) {}
+};
+
+static std::string show(PoolPair& p, const std::string& pre, bool& bad)
+{
+    std::ostringstream o;
+    o << pre << "size=" << p.x->size() << " :";
+    if (p.x->size() != p.s.size()) bad = true;
+    XalanDOMStringHashTable::BucketCountsType counts(g_mm);
+    p.x->getHashTable().getBucketCounts(counts);
+    size_t total = 0;
+    for (size_t i = 0; i < counts.size(); ++i)
+    {
+        total += counts[i];
+        if (counts[i] != 0) o << " " << i << "=" << counts[i];
+    }
+    if (total != p.s.size() || p.x->getHashTable().size() != p.s.size()) bad = true;
+    if (bad) o << " !std";
+    return o.str();
+}
+
 static bool units(const std::string& t, std::vector<XalanDOMChar>& out)
 {
     out.clear();
@@ -126,6 +155,8 @@ int main()
         for (int i = 0; i < 4; ++i) ss.push_back(new StrPair);
         std::vector<BmpPair*> bs;
         for (int i = 0; i < 2; ++i) bs.push_back(new BmpPair);
+        std::vector<PoolPair*> ps;
+        for (int i = 0; i < 2; ++i) ps.push_back(new PoolPair);
         bool poisoned = false;
         long leaked = 0;
         std::string line;
@@ -139,14 +170,54 @@ int main()
             {
                 for (auto*& p : ss) { delete p; }
                 for (auto*& p : bs) { delete p; }
+                for (auto*& p : ps) { delete p; }
                 leaked += g_mm.live; g_mm.live = 0;
                 for (auto*& p : ss) { p = new StrPair; }
                 for (auto*& p : bs) { p = new BmpPair; }
+                for (auto*& p : ps) { p = new PoolPair; }
                 poisoned = false;
                 std::cout << "ok\n";
                 continue;
             }
             if (poisoned) { std::cout << "skip\n"; continue; }
+            if (t.size() >= 3 && t[0] == "pool")
+            {
+                size_t pi = 0, x = 0;
+                if (!num(t[2], pi) || pi >= ps.size()) { std::cout << "bad\n"; continue; }
+                PoolPair& q = *ps[pi];
+                std::vector<XalanDOMChar> u;
+                bool pbad = false;
+                std::string pre;
+                if (t[1] == "new" && t.size() == 4 && num(t[3], x) && x >= 1) { delete ps[pi]; ps[pi] = new PoolPair(x); }
+                else if (t[1] == "clear") { q.x->clear(); q.ids.clear(); q.s.clear(); }
+                else if (t[1] == "get" && t.size() == 4 && units(t[3], u))
+                {
+                    const XalanDOMChar nul0 = 0;
+                    const XalanDOMString& r = q.x->get(u.empty() ? &nul0 : &u[0], u.size());
+                    std::u16string want(u.begin(), u.end());
+                    // the property: the returned string has the requested characters, and equal requests return the same object
+                    if (r.length() != want.size()) pbad = true;
+                    for (size_t k = 0; !pbad && k < want.size(); ++k) if (r[k] != want[k]) pbad = true;
+                    if (u.empty()) pre = "r=E ";
+                    else
+                    {
+                        size_t refIdx = 0;
+                        while (refIdx < q.s.size() && q.s[refIdx] != want) ++refIdx;
+                        if (refIdx == q.s.size()) q.s.push_back(want);
+                        std::map<const XalanDOMString*, size_t>::iterator f = q.ids.find(&r);
+                        size_t id;
+                        if (f == q.ids.end()) { id = q.ids.size(); q.ids[&r] = id; } else id = f->second;
+                        if (id != refIdx) pbad = true;
+                        std::ostringstream o; o << "r=" << id << " "; pre = o.str();
+                    }
+                }
+                else { std::cout << "bad\n"; continue; }
+                std::string pout = show(*ps[pi], pre, pbad);
+                if (pbad && pout.find("!std") == std::string::npos) pout += " !std";
+                if (pbad) poisoned = true;
+                std::cout << pout << "\n";
+                continue;
+            }
             if (t.size() >= 3 && t[0] == "bmp")
             {
                 size_t bi = 0, x = 0;
@@ -245,6 +316,7 @@ int main()
         }
         for (auto* p : ss) delete p;
         for (auto* p : bs) delete p;
+        for (auto* p : ps) delete p;
         leaked += g_mm.live;
         std::cout << "live " << leaked << "\n";
     }
